@@ -169,6 +169,9 @@ def render_terms(terms, scale=1):
         c = Fraction(t_['c']) * scale
         k = t_['k']
         cs = fs(c)
+        if t_.get('amp'):
+            # amplitude written as an unexpanded sum of netlist symbols (values in case['subs'])
+            cs = t_['amp'] if Fraction(scale) == 1 else '%s*%s' % (fs(Fraction(scale)), t_['amp'])
         if k == 'const':
             out.append(cs)
         elif k == 'cos':
@@ -367,10 +370,31 @@ def gen_circuit(rng, profile, tier='quick'):
         spec = rand_source_spec(rng, profile, nids)
         specs[name] = dict(spec, np=a, nm=b_)
         lines[i] = source_line(name, a, b_, spec)
+    subs = {}
+    equiv = None
+    if profile in ('multi', 'ac', 'noise', 'mixed', 'dcstep') and rng.random() < 0.45:
+        # one source becomes a sinusoid whose amplitude is an unexpanded sum of two symbols (ACChecker._is_sum_ac path)
+        sname = rng.choice(sorted(specs))
+        am, bm = Fraction(rng.randint(1, 5), rng.choice((1, 2, 3))), Fraction(rng.randint(1, 5), rng.choice((1, 2)))
+        if rng.random() < 0.3:
+            bm = -bm - 1
+        if am + bm == 0:
+            bm += 1
+        subs = {'am': str(am), 'bm': str(bm)}
+        terms = [{'k': rng.choice(['sin', 'sin', 'cos']), 'c': str(am + bm), 'w': str(rng.choice((1, 2, 3))), 'amp': '(am+bm)'}]
+        if rng.random() < 0.4:
+            terms.append({'k': rng.choice(['const', 'step']), 'c': rand_c(rng)})
+        spec = {'kind': 'texpr', 'terms': terms, 'np': specs[sname]['np'], 'nm': specs[sname]['nm']}
+        specs[sname] = spec
+        for i in srcs:
+            if lines[i].split()[0] == sname:
+                lines[i] = source_line(sname, spec['np'], spec['nm'], spec)
+        plain = dict(spec, terms=[{k_: v_ for k_, v_ in t_.items() if k_ != 'amp'} for t_ in terms])
+        equiv = {'src': sname, 'line': source_line(sname, spec['np'], spec['nm'], plain)}
     sname = rng.choice(sorted(specs))
     k = rng.choice(['3', '-2', '5/2', '-1/3'])
     scale = {'src': sname, 'k': k, 'line': source_line(sname, specs[sname]['np'], specs[sname]['nm'], specs[sname], Fraction(k))}
-    return {'type': 'circuit', 'netlist': lines, 'sources': specs, 'scale': scale, 'profile': profile,
+    return {'type': 'circuit', 'netlist': lines, 'sources': specs, 'scale': scale, 'profile': profile, 'subs': subs, 'equiv': equiv,
             's0': '%d/%d' % (rng.randint(1, 9), rng.randint(1, 4)), 'w0': '%d/%d' % (rng.randint(1, 7), rng.randint(1, 3)),
             'tags': nl['tags'] + [profile], 'timeout': 75 if tier == 'quick' else 300}
 
@@ -470,6 +494,14 @@ CORPUS = [
      'sources': {'V1': {'kind': 'ac', 'c': '5', 'w': '2', 'np': '1', 'nm': '0'}, 'I1': {'kind': 'step', 'c': '2', 'np': '3', 'nm': '0'},
                  'V2': {'kind': 'dc', 'c': '1', 'np': '4', 'nm': '3'}},
      'scale': {'src': 'V1', 'k': '3', 'line': 'V1 1 0 ac {15} 0 2'}},
+    # amplitude written as a sum (ACChecker._is_sum_ac): additivity / homogeneity / exact phasor
+    {'type': 'circuit', 'profile': 'multi', 'tags': ['corpus', 'ampsum'], 's0': '3/2', 'w0': '2/1', 'timeout': 120,
+     'subs': {'am': '1', 'bm': '3/2'},
+     'netlist': ['V1 1 0 {(am+bm)*sin(2*t)}', 'V2 2 1 {3+u(t)}', 'R1 2 3 1', 'C1 3 0 1'],
+     'sources': {'V1': {'kind': 'texpr', 'terms': [{'k': 'sin', 'c': '5/2', 'w': '2', 'amp': '(am+bm)'}], 'np': '1', 'nm': '0'},
+                 'V2': {'kind': 'texpr', 'terms': [{'k': 'const', 'c': '3'}, {'k': 'step', 'c': '1'}], 'np': '2', 'nm': '1'}},
+     'equiv': {'src': 'V1', 'line': 'V1 1 0 {(5/2)*sin(2*t)}'},
+     'scale': {'src': 'V1', 'k': '3', 'line': 'V1 1 0 {3*(am+bm)*sin(2*t)}'}},
     {'type': 'container', 'quantity': 'voltage', 's0': '3/2', 'w0': '5/3', 'collide': True, 'timeout': 40,
      'terms': [{'k': 'const', 'c': '3'}, {'k': 'cos', 'c': '2', 'w': '2'}, {'k': 'sin', 'c': '5', 'w': '2'}, {'k': 'step', 'c': '1'},
                {'k': 'sdom', 'c': '2', 'a': '3'}, {'k': 'noise', 'c': '3', 'nid': 'nz1'}, {'k': 'noise', 'c': '4', 'nid': 'nz1'},
@@ -1229,6 +1261,18 @@ def oracle_circuit(case, wr, res):
                     out.append({'key': 'noise:combination', 'case': case,
                                 'what': '%s: total noise power %s, expected %s from per-source amplitudes (same nid: amplitude, else power)' % (label, dump['n2'], exp)})
                 res.count('oracle_noise_checked')
+            # the same source value written with the amplitude already added up must give the same response
+            eqv = wr.get('equiv')
+            if eqv and 'error' not in eqv:
+                d = eqv['api'][cat].get(name)
+                t_ = obj_terms(d) if d is not None and 'error' not in d else None
+                if t_ is not None:
+                    got = buckets(t_)
+                    if not bk_eq(got, bk):
+                        out.append({'key': 'source-form:amplitude-sum', 'case': case,
+                                    'what': '%s: with %s written as `%s` the response is %s, with the unexpanded amplitude sum it is %s' % (
+                                        label, eqv['src'], eqv['line'], got, bk)})
+                    res.count('oracle_equivalent_form_checked')
             # scaling
             sc = wr.get('scaled')
             if sc and 'error' not in sc and sc['src'] in parts:
